@@ -238,7 +238,8 @@ def fields(ctx: Ctx, rule="R-C13-FIELDS") -> None:
               f"Job._construct_parameters builds result settings {unparse(rc[0])[:100]}", node=rc[0], instance="job result settings")
     ji = ctx.func("repid.job.Job.__init__")
     for attr in ("result_ttl", "result_id", "store_result"):
-        st = [n for n in ast.walk(ji.node) if isinstance(n, ast.Assign) and any(dotted(t) == f"self.{attr}" for t in n.targets)]
+        sv = C.stored_value(ji, f"self.{attr}")
+        st = [sv] if sv is not None else []
         want = {"result_ttl": ["result_ttl"], "result_id": ["result_id if isinstance(result_id, str) else uuid.uuid4().hex"],
                 "store_result": ["self._conn.results_bucket_broker is not None if store_result is None else store_result"]}[attr]
 
@@ -246,8 +247,8 @@ def fields(ctx: Ctx, rule="R-C13-FIELDS") -> None:
             t = C.negate_aware_ifexp(e)
             return unparse(e) if t is None else f"{unparse(t[1])} if {unparse(t[0])} else {unparse(t[2])}"
 
-        ctx.check(len(st) == 1 and canon(st[0].value) in [canon(ast.parse(w_, mode="eval").body) for w_ in want], rule, ji, f"Job keeps {attr} as configured", want[0],
-                  f"Job.__init__ stores {attr} = {unparse(st[0].value) if st else '?'}: the configured value (e.g. an explicit None = keep forever) is replaced", instance=f"Job.{attr}")
+        ctx.check(len(st) == 1 and canon(st[0]) in [canon(ast.parse(w_, mode="eval").body) for w_ in want], rule, ji, f"Job keeps {attr} as configured", want[0],
+                  f"Job.__init__ stores {attr} = {unparse(st[0]) if st else '?'}: the configured value (e.g. an explicit None = keep forever) is replaced", instance=f"Job.{attr}")
     # ... only when store_result
     par = [C.negate_aware_ifexp(n) for n in ast.walk(cp.node) if isinstance(n, ast.IfExp) and any(x is rc[0] for x in ast.walk(n))]
     ok = len(par) == 1 and dotted(par[0][0]) == "self.store_result" and C.is_const(par[0][2], None) and any(x is rc[0] for x in ast.walk(par[0][1]))
@@ -348,8 +349,8 @@ def bucket_brokers(ctx: Ctx, rule="R-C13-FIELDS") -> None:
         and unparse(rv.func.value) == S and (len(rv.args) < 2 or C.is_const(rv.args[1], None)) and not rv.keywords
     ctx.check(ok, rule, gb, "in-memory get_bucket: storage.get(id_)", "reads the bucket of that id", f"in-memory get_bucket returns {unparse(rv) if rv is not None else '?'}", instance="in-memory get")
     init = ctx.func(f"{im}.__init__")
-    bc = [n for n in ast.walk(init.node) if isinstance(n, ast.Assign) and any(dotted(t) == "self.BUCKET_CLASS" for t in n.targets)]
-    t = C.negate_aware_ifexp(bc[0].value) if bc else None
+    bcv = C.stored_value(init, "self.BUCKET_CLASS")
+    t = C.negate_aware_ifexp(bcv) if bcv is not None else None
     ok = t is not None and dotted(t[0]) == "use_result_bucket" and dotted(t[1]) == "ResultBucket" and dotted(t[2]) == "ArgsBucket"
     ctx.check(ok, rule, init, "results broker builds ResultBucket", "ResultBucket if use_result_bucket else ArgsBucket", "in-memory bucket broker's bucket class selection changed", instance="in-memory bucket class")
     rd = "repid.connections.redis.bucket_broker.RedisBucketBroker"
